@@ -489,10 +489,13 @@ def run_impl(case):
             if w[0] == "apply":
                 T = _transform(w[1:7], dt)
                 X = _coords(w[7], int(w[8]), int(w[9]), w[10])
+                # applied twice to the SAME object: the model is pure, so the second result must equal the first
                 if case.get("atoms"):
                     X = _as_atoms(X)
+                    T.apply(X)
                     out.append("ok " + _flat(T.apply(X).coord))
                 else:
+                    T.apply(X)
                     out.append("ok " + _flat(T.apply(X)))
             elif w[0] == "matrix":
                 out.append("ok " + _flat(_transform(w[1:7], dt).as_matrix()))
@@ -649,12 +652,24 @@ def _gen_apply(rng):
     R = [_mat(rng) for _ in range(m)]
     t = [[_small(rng) for _ in range(3)] for _ in range(ll)]
     X = [[[_small(rng) for _ in range(3)] for _ in range(n)] for _ in range(mx)]
+    # special transformations: pure translation (zero centring AND identity rotation), identity, and each alone
+    sp = rng.random()
+    eye = [[Fraction(int(i == j)) for j in range(3)] for i in range(3)]
+    if sp < 0.12:
+        c = [[Fraction(0)] * 3 for _ in range(k)]
+        R = [eye for _ in range(m)]
+        if sp < 0.03:
+            t = [[Fraction(0)] * 3 for _ in range(ll)]
+    elif sp < 0.17:
+        c = [[Fraction(0)] * 3 for _ in range(k)]
+    elif sp < 0.22:
+        R = [eye for _ in range(m)]
     head = f"{k} {_toks(_flatten(c))} {m} {_toks(_flatten(R))} {ll} {_toks(_flatten(t))}"
     dts = rng.choice([["float32"] * 3, ["float64"] * 3, ["float32", "float64", "float32"], ["float64", "float32", "float64"],
                       # integer rotation arrays (axis permutations / quarter turns as in the class docstring) with
                       # fractional float translations
                       ["float64", "int64", "float64"], ["float32", "int64", "float64"], ["float64", "int32", "float32"]])
-    if dts[1].startswith("int"):
+    if dts[1].startswith("int") and sp >= 0.22:
         c = [[_small(rng) + Fraction(rng.choice([1, 3, 5, 7]), rng.choice([2, 4, 8])) for _ in range(3)] for _ in range(k)]
         t = [[_small(rng) + Fraction(rng.choice([1, 3, 5, 7]), rng.choice([2, 4, 8])) for _ in range(3)] for _ in range(ll)]
         head = f"{k} {_toks(_flatten(c))} {m} {_toks(_flatten(R))} {ll} {_toks(_flatten(t))}"
@@ -941,6 +956,14 @@ def _gen_fit(rng, search=False):
     mm = {"aa": 0, "as": rng.choice([2, 4]), "ss": mf, "s1s1": 1, "s1a": 0, "as1": 1, "sa": 0}[combo]
     noise = rng.choice([0, 0, 0, 1e-3, 0.1, 1, 10])
     mirror = rng.random() < (0.5 if search else 0.25)
+    # motion class "tiny": an exact rigid copy whose orientation differs by 1e-6 .. 1e-2 rad only (every atom moves by
+    # far less than the precision of a structure file) combined with an arbitrary translation; the fixed set stays
+    # near the origin so that float32 resolves the rotation.  A fit must still find the placement with RMSD ~ rounding.
+    tiny = rng.random() < (0.3 if search else 0.17)
+    tiny_angle = 10 ** rng.uniform(-6, -2)
+    if tiny:
+        noise, mirror, offset = 0, False, 0
+        scale = rng.choice([0.5, 1, 1, 2, 5, 5, 20, 0.1, 100])
     base = _point_set(rng, shape, n) * scale
     n = len(base)
 
@@ -950,6 +973,12 @@ def _gen_fit(rng, search=False):
             Q = Q * np.array([1, 1, -1])
         if nz:
             Q = Q + np.array([rng.gauss(0, 1) for _ in range(Q.size)]).reshape(Q.shape) * nz * scale
+        if tiny:
+            ax = np.array([rng.gauss(0, 1) for _ in range(3)])
+            ax /= np.linalg.norm(ax) or 1.0
+            K = np.array([[0, -ax[2], ax[1]], [ax[2], 0, -ax[0]], [-ax[1], ax[0], 0]])
+            Rt = np.eye(3) + math.sin(tiny_angle) * K + (1 - math.cos(tiny_angle)) * K @ K
+            return Q @ Rt.T + np.array([rng.gauss(0, 1) for _ in range(3)]) * scale * rng.choice([0, 0.3, 1, 3])
         return Q @ _rand_rotation(rng).T + np.array([rng.gauss(0, 1) for _ in range(3)]) * (offset + scale)
 
     fixed_models = [base + (np.array([rng.gauss(0, 1) for _ in range(base.size)]).reshape(base.shape) * 0.3 * scale if i else 0) + offset
@@ -971,7 +1000,7 @@ def _gen_fit(rng, search=False):
         and combo in ("aa", "as", "s1s1", "s1a", "as1")
     # an exact rigid copy must be exact *after* the float32 rounding of the inputs: tolerance covers that
     case = {"kind": "fit", "shape": shape, "combo": combo, "noise": noise, "mirror": mirror, "rigid": rigid,
-            "scale": scale, "dtype": rng.choice(["float32", "float32", "float64"]),
+            "scale": scale, "dtype": rng.choice(["float32", "float32", "float64"]), "tiny": tiny_angle if tiny else None,
             "fixed": fixed32.tolist(), "mobile": mobile32.tolist(), "mask": mask,
             "atoms": rng.random() < 0.3, "pseed": rng.randint(0, 2**31)}
     if mask is not None and not all(mask):
@@ -1035,6 +1064,13 @@ def corpus():
         {"kind": "apply", "dt": ["float64", "int64", "float64"],
          "ops": ["apply 1 1/2,-1/4,3/2 1 0,-1,0,1,0,0,0,0,1 1 5/2,1/8,-7/4 2 1 3 0,1,2,3,4,5,6,7,8",
                  "matrix 1 1/2,-1/4,3/2 1 0,-1,0,1,0,0,0,0,1 1 5/2,1/8,-7/4"]},
+        # pure translation (zero centring, identity rotation) and the identity transformation
+        {"kind": "apply", "dt": ["float32"] * 3,
+         "ops": ["apply 1 0,0,0 1 1,0,0,0,1,0,0,0,1 1 5/2,-1,3 2 1 2 1,2,3,4,5,6", "matrix 1 0,0,0 1 1,0,0,0,1,0,0,0,1 1 5/2,-1,3"]},
+        {"kind": "apply", "dt": ["float64"] * 3, "atoms": True,
+         "ops": ["apply 1 0,0,0 2 1,0,0,0,1,0,0,0,1,1,0,0,0,1,0,0,0,1 2 1,1,1,-2,0,1/2 3 2 2 1,2,3,4,5,6,7,8,9,10,11,12"]},
+        {"kind": "apply", "dt": ["float32"] * 3,
+         "ops": ["apply 1 0,0,0 1 1,0,0,0,1,0,0,0,1 1 0,0,0 2 1 2 1,2,3,4,5,6"]},
         # model-count mismatch -> IndexError; centre translation of 2 models for 3 rotations -> ValueError
         {"kind": "apply", "ops": ["apply 1 0,0,0 2 1,0,0,0,1,0,0,0,1,1,0,0,0,1,0,0,0,1 1 0,0,0 2 1 1 1,2,3",
                                   "apply 2 0,0,0,1,1,1 3 1,0,0,0,1,0,0,0,1,1,0,0,0,1,0,0,0,1,1,0,0,0,1,0,0,0,1 1 0,0,0 3 3 1 1,2,3,1,2,3,1,2,3"]},
@@ -1120,9 +1156,20 @@ def _check_transform(T, X, tag, v, history=True):
     """matrix form == apply, and model-wise action, on the real objects (and, once, the multi-step history)."""
     import numpy as np
     S = _mod()
+    X_before = np.array(S.coord(X), copy=True)
     Y = T.apply(X)
     Xc = S.coord(X)
     Yc = Y if isinstance(Y, np.ndarray) else Y.coord
+    if Xc.shape != X_before.shape or not np.array_equal(Xc, X_before, equal_nan=True):
+        v.append((f"C16/{tag}/apply-modifies-input",
+                  f"apply() changed the coordinates it was given (max change {np.nanmax(np.abs(Xc - X_before)) if Xc.size else 0:.3g}; "
+                  f"centre translation all zero: {not np.any(T.center_translation)}, rotation identity: "
+                  f"{bool(np.array_equal(T.rotation, np.broadcast_to(np.eye(3), T.rotation.shape)))})"))
+        return
+    xarr = X if isinstance(X, np.ndarray) else X.coord
+    if Yc.size and np.shares_memory(Yc, xarr):
+        v.append((f"C16/{tag}/apply-returns-alias-of-input", "the coordinates returned by apply() share memory with the input"))
+        return
     if Yc.shape != Xc.shape:
         v.append((f"C16/{tag}/apply-shape", f"apply changed the shape {Xc.shape} -> {Yc.shape}"))
         return
@@ -1329,7 +1376,7 @@ def _oracle_fit(case):
         if r0 > _allowed_rmsd(X, Y0, ropt, tol):
             v.append(("C16/superimpose/rmsd-above-optimum",
                       f"model {k}: RMSD {r0:.6g} but a rigid placement with {ropt:.6g} exists (tol {tol:.2g}; "
-                      f"shape {case.get('shape')}, n={n}, noise {case.get('noise')}, mirror {case.get('mirror')})"))
+                      f"shape {case.get('shape')}, n={n}, noise {case.get('noise')}, mirror {case.get('mirror')}, tiny rotation {case.get('tiny')})"))
             break
         if case.get("rigid") and r0 > _allowed_rmsd(X, Y0, 0.0, tol):
             v.append(("C16/superimpose/rigid-copy-rmsd-not-zero", f"model {k}: RMSD {r0:.6g} for an exact rigid copy (tol {tol:.2g}, shape {case.get('shape')})"))
@@ -1520,11 +1567,13 @@ def _oracle_exact(case):
         try:
             T = _transform(w[1:7], dt)
             X = _coords(w[7], int(w[8]), int(w[9]), w[10])
-            T.apply(X)
+            T.apply(X.copy())
             T.as_matrix()
         except Exception:  # noqa: BLE001
             continue           # rejected: compared with the model's error in the correspondence
         _check_transform(T, X, "AffineTransformation", v)
+        if not v:
+            _check_transform(T, _as_atoms(X.copy()), "AffineTransformation", v)
     return v
 
 
